@@ -443,6 +443,10 @@ func (lb *LoadBalancer) AddBackend(backendCfg config.BackendConfig) error {
 
 	// Create a reverse proxy for this backend with optimized transport
 	proxy := httputil.NewSingleHostReverseProxy(backendURL)
+	// Hand on what the backend has flushed without waiting for more: by default the proxy
+	// only does so for responses of unknown length and event streams, and a response with a
+	// declared length that is produced slowly would sit in the buffer until it ends
+	proxy.FlushInterval = -1
 
 	// Configure custom transport with timeouts (LEETCODE-STYLE OPTIMIZATION!)
 	dialTimeout := time.Duration(lb.config.Server.Timeouts.BackendDial) * time.Second
